@@ -3,7 +3,7 @@ import OpusProofs.SilkSymsHistory
 import OpusProofs.SilkSymsLag
 import OpusProofs.CeltSymsHeader
 import OpusProofs.SilkSymsJ2
-import OpusProofs.CeltBandsTotal
+import OpusProofs.CeltBandsAllocOps
 /-
   Property C03 — "decoder output conforms to the RFC 6716 reference decoder", bit-stream half, stage 1:
   the SILK symbol layer.  `Opus.SilkSyms.decodePacket` (OpusModel/SilkSyms.lean) is the frozen normative
@@ -216,17 +216,38 @@ theorem celtBands_no_fault (cfg : CeltCfg) (len : Nat) (h : CeltHdr) (o : Opus.C
 
 open Opus.CeltSyms Opus.CeltBands Opus.CeltBandsProofs Opus.CeltSymsProofs in
 /-- Totality of the whole CELT frame model `celtFrame` (header, C17's `computeAllocation` driven by the range decoder,
-    band data, final range): from any decoder state satisfying `J` — `ec_dec_init` on arbitrary bytes, or what the SILK
-    layer hands over in a hybrid frame (`celtHdr_hybrid_total_in_range`) — and every legal configuration it returns a
-    frame or `INTERNAL_ERROR` (the `ec_tell(dec) > 8*len` exit), never `.oob` / `.abort`.  The header puts the allocation
-    input inside C17's domain (`allocInp_dom`), so the allocation returns (`alloc_main`); the remaining hypothesis is the
-    CONTRACT on its coder calls that C03 needs from C17's model: at most 63 calls, every `ec_dec_uint` with
-    `2 ≤ ft < 2^32` (`AllocOps`). -/
-theorem celtFrame_total_under_alloc_contract (cfg : CeltCfg) (len : Nat) (c : Dec) (hj : J c) (hl : cfg.LM < 4)
-    (hC : cfg.C = 1 ∨ cfg.C = 2) (hse : cfg.start < cfg.end_) (he : cfg.end_ ≤ 21) (hlen : len ≤ 262144)
-    (hops : ∀ h, celtHeader cfg len c = .ok h → AllocOps (allocInp cfg h)) :
+    band data, final range): from any decoder state satisfying `J` and every legal configuration it returns a frame or
+    `INTERNAL_ERROR` (the `ec_tell(dec) > 8*len` exit of celt_decoder.c:1357), never `.oob` / `.abort` — no laplace.c
+    assertion; the header puts the allocation input inside C17's domain (`allocInp_dom`), so the allocation returns
+    (C17's `alloc_main`) after at most 23 coder calls whose `ec_dec_uint` has `2 ≤ ft ≤ 22` (`allocOps_of_dom`, proved
+    from C17's model), so the oracle-driving loop `allocDrive` ends; and the band data never faults
+    (`celtBands_no_fault`). -/
+theorem celtFrame_total (cfg : CeltCfg) (len : Nat) (c : Dec) (hj : J c) (hl : cfg.LM < 4)
+    (hC : cfg.C = 1 ∨ cfg.C = 2) (hse : cfg.start < cfg.end_) (he : cfg.end_ ≤ 21) (hlen : len ≤ 262144) :
     (∃ f, celtFrame cfg len c = .ok f) ∨ celtFrame cfg len c = .err .internalError :=
-  celtFrame_total cfg len c hj hl hC hse he hlen hops
+  Opus.CeltBandsProofs.celtFrame_total cfg len c hj hl hC hse he hlen
+    (fun h hh => allocOps_of_dom _ (allocInp_dom cfg len c h hh hl hC hse he hlen))
+
+open Opus.CeltSyms Opus.CeltBands Opus.CeltBandsProofs Opus.CeltSymsProofs in
+/-- … in particular for every CELT-only frame of ARBITRARY BYTES (`ec_dec_init` establishes `J`) at every bandwidth,
+    frame size and channel count, and for the CELT part of every hybrid frame (super-wide-band or full-band: `end > 17`) behind an arbitrary SILK
+    part. -/
+theorem celtFrame_total_arbitrary_bytes (bandwidth nCh spf48 : Nat) (hC : nCh = 1 ∨ nCh = 2) (frame : Bytes)
+    (hlen : frame.length ≤ 1275) :
+    ((∃ f, celtFrame { start := 0, end_ := endBandOf bandwidth, C := nCh, LM := lmOf spf48 } frame.length
+            (decInit frame frame.length) = .ok f) ∨
+      celtFrame { start := 0, end_ := endBandOf bandwidth, C := nCh, LM := lmOf spf48 } frame.length
+            (decInit frame frame.length) = .err .internalError) ∧
+    (∀ mode ms10 fec st o len, len ≤ 1275 → 17 < endBandOf bandwidth → decodeOpusFrame mode bandwidth nCh ms10 fec st frame = .ok o →
+      (∃ f, celtFrame { start := 17, end_ := endBandOf bandwidth, C := nCh, LM := lmOf spf48 } len o.dec = .ok f) ∨
+       celtFrame { start := 17, end_ := endBandOf bandwidth, C := nCh, LM := lmOf spf48 } len o.dec = .err .internalError) := by
+  have hlm : lmOf spf48 < 4 := by unfold lmOf; split <;> (try split) <;> (try split) <;> omega
+  have he : endBandOf bandwidth ≤ 21 := by unfold endBandOf; split <;> (try split) <;> (try split) <;> omega
+  have hs0 : 0 < endBandOf bandwidth := by unfold endBandOf; split <;> (try split) <;> (try split) <;> omega
+  constructor
+  · exact celtFrame_total _ _ _ (J_decInit frame frame.length) hlm hC hs0 he (by omega)
+  · intro mode ms10 fec st o len hl h17 ho
+    exact celtFrame_total _ _ _ (decodeOpusFrame_J mode bandwidth nCh ms10 fec st frame o ho) hlm hC h17 he (by omega)
 
 /-- non-vacuity: a 10 ms mono wide-band CELT frame of arbitrary bytes runs through allocation, fine energy, the band
     data with theta splits and PVQ indices, and finalisation, without fault and inside its budget -/
